@@ -53,6 +53,10 @@ type retK func(st *State, results []Value)
 func (s *Session) execFrom(st *State, b *ssa.BasicBlock, from *ssa.BasicBlock) {
 	fr := st.fr
 	for {
+		if s.shouldPark(st, b, from) {
+			s.pending[b] = append(s.pending[b], parked{st, from})
+			return
+		}
 		s.paths++
 		if s.paths > s.maxPaths {
 			fatalf("%s: more than %d paths; the function needs an intermediate cut", s.name, s.maxPaths)
